@@ -14,6 +14,7 @@
 #if SIM_PART == 0
     #define SIM_MAIN_TU 1
 #endif
+#include "../sim/composite.hpp"
 #include "../sim/driver.hpp"
 #include "../sim/worker.hpp"
 
@@ -25,6 +26,11 @@
 namespace {
 
 using namespace sim;
+
+// moving from such a value leaves it in an unspecified state (instrumented types leave a marker, Nest loses its parts)
+template <typename X>
+inline constexpr bool moved_from_unspecified_v = is_tracked_v<X> || std::is_same_v<X, sim::Nest>;
+
 
 constexpr int kTemp = kSlots - 1;
 
@@ -448,7 +454,7 @@ struct OptDriver : DriverBase<OptDriver<T>> {
                 O& alias = *obj[b];
                 bool ok  = call(a, false, false, [&] { v = static_cast<O&&>(alias); });
                 if (ok) {
-                    unspec[a] = tracked && m.has_value();
+                    unspec[a] = moved_from_unspecified_v<T> && m.has_value();
                     ++ctx.boundaryEvents;
                 }
                 return;
@@ -457,7 +463,7 @@ struct OptDriver : DriverBase<OptDriver<T>> {
             if (ok) {
                 m         = model[b];
                 unspec[a] = false;
-                unspec[b] = tracked && model[b].has_value(); // std: the source stays engaged, its value is moved-from
+                unspec[b] = moved_from_unspecified_v<T> && model[b].has_value(); // std: the source stays engaged, its value is moved-from
                 source_must_be_moved_from(b, was);
                 SIM_COUNT("F7.moved_from_created");
                 changed(was, m.has_value());
@@ -740,7 +746,7 @@ struct OptDriver : DriverBase<OptDriver<T>> {
         case 4: m = model[b]; break;
         case 5:
             m         = model[b];
-            unspec[b] = tracked && model[b].has_value();
+            unspec[b] = moved_from_unspecified_v<T> && model[b].has_value();
             source_must_be_moved_from(b, false);
             SIM_COUNT("F7.moved_from_created");
             break;
@@ -1557,7 +1563,7 @@ struct VarDriver : DriverBase<VarDriver<Ts...>> {
                 bool ok  = call(a, false, false, [&] { v = static_cast<V&&>(alias); });
                 if (ok) {
                     bool selfTracked = false;
-                    with_index<NA>(m.index, [&](auto ic) { selfTracked = is_tracked_v<Alt<decltype(ic)::value>>; });
+                    with_index<NA>(m.index, [&](auto ic) { selfTracked = moved_from_unspecified_v<Alt<decltype(ic)::value>>; });
                     unspec[a] = selfTracked;
                     ++ctx.boundaryEvents;
                 }
@@ -1568,7 +1574,7 @@ struct VarDriver : DriverBase<VarDriver<Ts...>> {
                 m         = model[b];
                 unspec[a] = false;
                 bool srcTracked = false;
-                with_index<NA>(model[b].index, [&](auto ic) { srcTracked = is_tracked_v<Alt<decltype(ic)::value>>; });
+                with_index<NA>(model[b].index, [&](auto ic) { srcTracked = moved_from_unspecified_v<Alt<decltype(ic)::value>>; });
                 unspec[b] = srcTracked;
                 SIM_COUNT("F7.moved_from_created");
                 changed(was, m.index);
@@ -1754,9 +1760,11 @@ struct VarDriver : DriverBase<VarDriver<Ts...>> {
             case 5: {
                 m = model[b];
                 bool srcTracked = false;
-                with_index<NA>(model[b].index, [&](auto ic) { srcTracked = is_tracked_v<Alt<decltype(ic)::value>>; });
+                with_index<NA>(model[b].index, [&](auto ic) { srcTracked = moved_from_unspecified_v<Alt<decltype(ic)::value>>; });
                 unspec[b] = srcTracked;
-                if (srcTracked) {
+                bool srcMarker = false;
+                with_index<NA>(model[b].index, [&](auto ic) { srcMarker = is_tracked_v<Alt<decltype(ic)::value>>; });
+                if (srcMarker) {
                     // move construction must move the active alternative (whatever its index), as std::variant does
                     int got = 0;
                     observe("moved-from source", [&] { with_index<NA>(model[b].index, [&](auto ic) { got = alt_value((*obj[b])[ic]); }); });
@@ -1829,7 +1837,7 @@ struct ExpDriver : DriverBase<ExpDriver<T, E>> {
     using X = etl::expected<T, E>;
     static constexpr bool tracked = is_tracked_v<T> || is_tracked_v<E>;
     // the side that is active in a model state is an instrumented type (its moved-from value carries the marker)
-    static auto side_tracked(bool hasValue) -> bool { return hasValue ? is_tracked_v<T> : is_tracked_v<E>; }
+    static auto side_tracked(bool hasValue) -> bool { return hasValue ? moved_from_unspecified_v<T> : moved_from_unspecified_v<E>; }
 
     struct XModel {
         bool has  = true;
@@ -2399,6 +2407,7 @@ void add(std::string name, bool lifetime)
     registry().push_back(std::move(s));
 }
 
+// (moved_from_unspecified_v is defined near the top)
 // ================================================================================================ addressof
 // An element type that overloads unary operator& (the COM / smart-pointer idiom: &p yields the inner pointer). Owners
 // must reach their elements with addressof; a plain & constructs or destroys something else - typically nothing, and
@@ -2847,6 +2856,7 @@ void register_ovx_0()
     add<OptDriver<sim::TrackedMoveOnly>>("optional<TrackedMoveOnly>", true);
     add<OptDriver<sim::TrackedDA>>("optional<TrackedDA>", true);
     add<OptDriver<sim::TrackedOA>>("optional<TrackedOA>", true); // alignas(32) value
+    add<OptDriver<sim::Nest>>("optional<Nest>", true);           // a value that owns library objects itself
     add<OptRefDriver<int>>("optional<int&>", false);
     add<OptRefDriver<Cell>>("optional<Cell&>", false);
 }
@@ -2868,6 +2878,7 @@ void register_ovx_1()
     add<VarDriver<int, float>>("variant<int,float>", false);
     add<VarDriver<int, sim::TrackedDA>>("variant<int,TrackedDA>", true);
     add<VarDriver<char, sim::TrackedOA>>("variant<char,TrackedOA>", true); // smallest and over-aligned alternative
+    add<VarDriver<int, sim::Nest>>("variant<int,Nest>", true);
 }
 #elif SIM_PART == 2
 void register_ovx_2()
@@ -2877,6 +2888,7 @@ void register_ovx_2()
     add<ExpDriver<sim::Tracked, sim::Tracked>>("expected<Tracked,Tracked>", true);
     add<ExpDriver<sim::TrackedDA, int>>("expected<TrackedDA,int>", true);
     add<ExpDriver<int, sim::TrackedOA>>("expected<int,TrackedOA>", true); // over-aligned error type
+    add<ExpDriver<sim::Nest, int>>("expected<Nest,int>", true);
     {
         Scenario sc;
         sc.family   = "ovx";
